@@ -65,6 +65,15 @@ func c08Signatures(anchors []*topology.FunctionTopology) []detection.Signature {
 											NodeCount: nc, LoopDepth: ld,
 											IdentifyingFeatures: detection.IdentifyingFeatures{RequiredCalls: req, StringPatterns: pat},
 										})
+										// hand-curated signatures also list OPTIONAL calls (present or absent in the function)
+										if nc == 4 && ld == 2 {
+											n++
+											sg := sigs[len(sigs)-1]
+											sg.ID, sg.Name = fmt.Sprintf("S%05d", n), sg.Name+"-opt"
+											sg.Severity = []string{"LOW", "CRITICAL", "MEDIUM"}[n%3]
+											sg.IdentifyingFeatures.OptionalCalls = []string{"net.Dial", "os.Exec", "fmt.Println", "time.Sleep"}
+											sigs = append(sigs, sg)
+										}
 									}
 								}
 							}
